@@ -44,6 +44,29 @@ def stmts_json(stmts):
     return out
 
 
+_OPAQUE = {}
+
+
+def opaque_gate(cirq, u):
+    """a user gate that only knows its matrix (no `_qasm_`, no `_decompose_`): the writer's generic fallback has to export it"""
+    if 'cls' not in _OPAQUE:
+        class OpaqueGate(cirq.Gate):
+            def __init__(self, matrix):
+                self._m = np.asarray(matrix)
+
+            def _num_qubits_(self):
+                return int(round(math.log2(self._m.shape[0])))
+
+            def _unitary_(self):
+                return self._m
+
+            def __repr__(self):
+                return f'OpaqueGate({np.round(self._m, 6).tolist()!r})'
+
+        _OPAQUE['cls'] = OpaqueGate
+    return _OPAQUE['cls'](u)
+
+
 def extra_qasm_gates(cirq, rng, k):
     """gate families with their own QASM output that the shared generators do not emphasise"""
     t = gen.rand_exponent(rng)
@@ -53,6 +76,8 @@ def extra_qasm_gates(cirq, rng, k):
             cirq.rx(rng.uniform(-7, 7)), cirq.ry(rng.uniform(-7, 7)), cirq.rz(rng.uniform(-7, 7)), cirq.H**t,
             cirq.circuits.qasm_output.QasmUGate(rng.uniform(-2, 2), rng.uniform(-2, 2), rng.uniform(-2, 2)),
             cirq.PhasedXPowGate(phase_exponent=gen.rand_exponent(rng), exponent=t),
+            cirq.PhasedXPowGate(phase_exponent=gen.rand_exponent(rng), exponent=rng.choice([0.5, -0.5, 1.5, -1.5, 2.5, 3.5, -3.5])),
+            opaque_gate(cirq, gen.rand_unitary(rng, 2)),
         ])
     if k == 2:
         return rng.choice([
@@ -63,6 +88,9 @@ def extra_qasm_gates(cirq, rng, k):
             # controlled Paulis / Hadamard whose global shift becomes a relative phase under control
             cirq.ControlledGate(rng.choice([cirq.XPowGate, cirq.YPowGate, cirq.ZPowGate, cirq.HPowGate])(exponent=1, global_shift=rng.choice([-0.5, 0.5, 0.25, 1]))),
             cirq.ControlledGate(rng.choice([cirq.rx, cirq.ry, cirq.rz])(math.pi)),
+            # gates without an export of their own: matrix-only user gates and the writer's two-qubit fallback used directly
+            opaque_gate(cirq, rng.choice([cirq.unitary(cirq.SWAP), cirq.unitary(cirq.ISWAP), cirq.unitary(cirq.ZZ ** 0.3), gen.rand_unitary(rng, 4), gen.rand_unitary(rng, 4)])),
+            cirq.circuits.qasm_output.QasmTwoQubitGate.from_matrix(rng.choice([cirq.unitary(cirq.SWAP), gen.rand_unitary(rng, 4), cirq.unitary(cirq.ZZ ** -0.4)])),
         ])
     return rng.choice([cirq.CCX, cirq.CCZ, cirq.CSWAP, cirq.CCX**t, cirq.CCZ**t, cirq.ControlledGate(cirq.CZ**t), cirq.IdentityGate(3)])
 
